@@ -10,6 +10,7 @@ import (
 	"encoding/json"
 	"fmt"
 	"os"
+	"reflect"
 	"sort"
 	"time"
 )
@@ -341,3 +342,11 @@ func ReplayAll(fns map[string]func()) {
 		cur, res = nil, nil
 	}
 }
+
+// SwapperOf is the engine's model of internal/reflectlite.Swapper (used by sort.Slice/SliceStable, whose own code is
+// interpreted from its real SSA): the returned closure swaps two elements of the slice held in x. Natively
+// sort uses the real reflectlite; these two functions are only reached under the engine.
+func SwapperOf(x any) func(i, j int) { return func(i, j int) { SwapElems(x, i, j) } }
+
+// SwapElems swaps x[i] and x[j] of the slice held in x (intercepted by the engine).
+func SwapElems(x any, i, j int) { reflect.Swapper(x)(i, j) }
